@@ -10,6 +10,7 @@ import SplinkVerif.Drv.Cache
 import SplinkVerif.Drv.GraphMetrics
 import SplinkVerif.Drv.Descriptive
 import SplinkVerif.Drv.Accuracy
+import SplinkVerif.Drv.Serialise
 /-! Line-protocol driver: one JSON object per input line, one JSON object per output line. -/
 open Lean SplinkVerif.Drv
 
@@ -32,6 +33,8 @@ def dispatch (j : Json) : Except String Json := do
   | "acc_truth" => handleAccTruth j
   | "acc_errors" => handleAccErrors j
   | "acc_prepare" => handleAccPrepare j
+  | "ser_save" => handleSerSave j
+  | "ser_load" => handleSerLoad j
   | "ping" => pure (Json.mkObj [("pong", Json.bool true)])
   | _ => throw s!"unknown op {op}"
 
